@@ -111,6 +111,28 @@ func Fault(desc string) bool {
 	return false
 }
 
+// SelectOrders lets the explorer decide which case of a multi-case select is tried first (every rotation other
+// than source order costs one deviation). When false, selects poll their cases in source order — still
+// deterministic, which Go's own uniformly random choice among ready cases is not.
+var SelectOrders bool
+
+// SelectOrder is called once per execution of a select with n >= 2 communications.
+func SelectOrder(n int) int {
+	s := cur
+	if n < 2 || !SelectOrders || s == nil || s.aborted {
+		return 0
+	}
+	cost := make([]int, n)
+	for i := 1; i < n; i++ {
+		cost[i] = 1
+	}
+	o := s.ch.ChooseCost(n, "select-order", cost)
+	if o != 0 && s.TraceOn {
+		s.out.Trace = append(s.out.Trace, fmt.Sprintf("SELECT-ORDER:%d", o))
+	}
+	return o
+}
+
 // ReleasePoint is called by the shims after a release.
 func ReleasePoint(desc string) {
 	if ReleasePoints {
